@@ -1,10 +1,9 @@
 #!/bin/bash
-# Runs every quick check under several VERIF_SEED values (false-alarm hunt).
+# Runs every quick check under several VERIF_SEED values (false-alarm hunt) on
+# scratch copies of /repo and of the committed /verif (see seeded/try.sh), so
+# that files being edited here do not leak into the runs.
 cd /verif
 for s in ${SEEDS:-2 3 5 7 11}; do
-  for p in C02 C03 C18 C06 C17 C19; do
-    start=$(date +%s)
-    VERIF_SEED=$s ./verif check $p --tier quick > out/seed-$s-$p.log 2>&1
-    echo "seed=$s $p rc=$? $(( $(date +%s) - start ))s $(grep -E '^VIOLATION|MACHINERY|^  class' out/seed-$s-$p.log | head -3 | tr '\n' ' ')"
-  done
+  echo "##### seed $s"
+  VERIF_SEED=$s TRY_DIR=${TRY_DIR:-/tmp/wt/try} bash seeded/try.sh clean C02 C03 C18 C06 C17 C19 2>&1 | grep -E "^===|^rc=|^VIOLATION|MACHINERY|^  class"
 done
